@@ -172,7 +172,9 @@ static carquet_status_t flush_current_page(carquet_column_writer_internal_t* wri
     }
 
     /* Update statistics */
-    writer->total_uncompressed_size += uncompressed_size;
+    /* total_uncompressed_size covers the page headers too (parquet.thrift) */
+    writer->total_uncompressed_size += uncompressed_size +
+        (int64_t)(page_size - (size_t)compressed_size);
     writer->total_compressed_size += compressed_size;
     writer->num_pages++;
 
